@@ -110,6 +110,48 @@ Theorem C04_applied_force :
 Proof. exact applied_force_after_history. Qed.
 Print Assumptions C04_applied_force.
 
+(* ---- T2r.  State files.  After ANY sequence of steps, restarts from a state file into a new instance and loads of
+   a state file into the running instance (read_state_data replaces the grids by the counts and gradient * count
+   read), the ABF force of the next step is [spec_force] of the CURRENT grids: the past matters only through the
+   grids; in particular two pasts ending with the same grids give the same force.  (The zero-mean term of a
+   periodic variable is the mean over the bins of the ramped estimates of the current grids, not of any earlier ones.) *)
+Theorem C04_applied_force_function_of_grids :
+  forall (c : @abf_cfg R) (evs : list (@abf_event R)) (i : @abf_in R) (k : nat),
+    Forall event_ok evs ->
+    (k < c_nd c)%nat -> (0 <= c_min c < c_full c)%Z -> (c_cap c = true -> (0 <= vget Rops (c_maxf c) k)%R) ->
+    let s := abf_run_events Rops c evs in
+    let s1 := fst (abf_step Rops c s i) in
+    vget Rops (o_fabf (snd (abf_step Rops c s i))) k
+    = spec_force c (i_apply i) (s_cnt s1) (s_sum s1) (bins Rops c (i_x i)) k.
+Proof. exact applied_force_function_of_grids. Qed.
+Print Assumptions C04_applied_force_function_of_grids.
+
+Theorem C04_same_grids_same_force :
+  forall (c : @abf_cfg R) (evs1 evs2 : list (@abf_event R)) (i : @abf_in R) (k : nat),
+    Forall event_ok evs1 -> Forall event_ok evs2 ->
+    (k < c_nd c)%nat -> (0 <= c_min c < c_full c)%Z -> (c_cap c = true -> (0 <= vget Rops (c_maxf c) k)%R) ->
+    let s1 := fst (abf_step Rops c (abf_run_events Rops c evs1) i) in
+    let s2 := fst (abf_step Rops c (abf_run_events Rops c evs2) i) in
+    s_cnt s1 = s_cnt s2 -> s_sum s1 = s_sum s2 ->
+    vget Rops (o_fabf (snd (abf_step Rops c (abf_run_events Rops c evs1) i))) k
+    = vget Rops (o_fabf (snd (abf_step Rops c (abf_run_events Rops c evs2) i))) k.
+Proof. exact same_grids_same_force. Qed.
+Print Assumptions C04_same_grids_same_force.
+
+(* T1 after a restart: whatever happened before, after a restart from the data set d and the steps h the grids are
+   d plus the samples attributed in h *)
+Theorem C04_abf_state_after_restart :
+  forall (c : @abf_cfg R) (evs : list (@abf_event R)) (d : @dataset R) (h : list (@abf_in R)) (b : idx) (a : bool),
+    wf_cfg c -> apply_const a h ->
+    let s0 := abf_set_grids Rops c (abf_init Rops c) d 0 in
+    let s := abf_run_events Rops c (evs ++ [EvRestart d] ++ map (@EvStep R) h) in
+    let S := attributed Rops c (trace_from Rops c s0 h) in
+    s_cnt s b = (fst d b + cnt_of b S)%Z /\
+    forall k, (k < c_nd c)%nat ->
+      vget Rops (s_sum s b) k = (vget Rops (snd d b) k * IZR (fst d b) - fsum_of Rops k b S)%R.
+Proof. exact abf_state_after_restart_const. Qed.
+Print Assumptions C04_abf_state_after_restart.
+
 (* ---- T2'.  T1 and T2 together, without reference to the stored arrays: for every history h and next
    step i, the ABF force of that step is [spec_force_samples] of the samples attributed in h ++ [i]:
    ramp(N_b) * (- arithmetic mean of the N_b sample forces of the current bin b), minus the grid average of
@@ -201,6 +243,12 @@ Example C04_example_steady_nohide : forall (c : @abf_cfg R) a h, c_hidej c = fal
 Proof. exact steady_nohide. Qed.
 Example C04_example_steady_same : forall (c : @abf_cfg R) a h, c_same_step c = true -> steady c a h.
 Proof. exact steady_same. Qed.
+
+(* event_ok holds for a step, a restart and a reload with non-negative counts *)
+Example C04_example_event_ok : Forall event_ok [EvStep (@mkIn R [(1/2)%R] [1%R] [0%R] [0%R] false true);
+                                                EvRestart ((fun _ => 2%Z), (fun _ => [1%R]));
+                                                EvReload ((fun _ => 0%Z), (fun _ => [0%R]))].
+Proof. exact example_event_ok. Qed.
 
 (* T4's premise s_started = true holds after any step *)
 Example C04_example_started : forall (c : @abf_cfg R) s i, s_started (fst (abf_step Rops c s i)) = true.
